@@ -110,7 +110,17 @@ def step (t : List String) : Option String :=
               | some g =>
                 match toAppV abi s g ty with
                 | none => some "abort"
-                | some b => some s!"ok img={join (g.leaves.map showGuestLeaf)} back={join (b.leaves.map (showAppLeaf s))}"
+                | some b =>
+                  -- frame (C08_store_frame): count the bytes outside the leaves' footprints that the image writes change
+                  let base := 0x1000
+                  let m0 : Mem := fun _ => 0xEE
+                  let m1 := writeMany m0 (imageWrites abi ty g base)
+                  let foot := (leafRel abi ty).zip (leafSizes abi ty)
+                  let inLeaf (x : Nat) : Bool := foot.any fun (o, sz) => decide (base + o ≤ x ∧ x < base + o + sz)
+                  let sz := ty.size abi
+                  let pad := ((List.range sz).filter fun k => !inLeaf (base + k) && m1 (base + k) != 0xEE).length
+                  let tail := ((List.range 32).filter fun k => m1 (base + sz + k) != 0xEE).length
+                  some s!"ok img={join (g.leaves.map showGuestLeaf)} pad={pad} tail={tail} back={join (b.leaves.map (showAppLeaf s))}"
             else if op == "sarg" then
               match toGuestV abi s v ty with
               | none => some "abort"
